@@ -1,11 +1,11 @@
 (* C11  Priority rules order candidates as documented and allocation never
    inverts them.  Statements only; proofs in Proofs/SortProof.v,
-   Proofs/C11Proof.v.
-   PARTIAL: the allocation clause (no free eligible worker is given to a
-   lower-priority task while a higher-priority one could accept it) is searched
-   by the oracle (harness/props/c11.py inversions), not proved. *)
+   Proofs/C11Proof.v, Proofs/C06Max.v.
+   PARTIAL: the allocation clause (no inversion) is proved for tasks that need
+   no facility; for facility tasks it is searched by the oracle
+   (harness/props/c11.py inversions). *)
 From Coq Require Import List ZArith QArith Bool Arith Permutation Sorted.
-From PV Require Import Model.Types Model.Sim Proofs.Base Proofs.SortProof Proofs.C11Proof.
+From PV Require Import Model.Types Model.Sim Proofs.Base Proofs.SortProof Proofs.C11Proof Proofs.C06Max.
 Import ListNotations.
 
 (* sorted_by le key l : adjacent (indeed all ordered pairs of) elements are in
@@ -69,6 +69,25 @@ Proof.
   intros a. apply stable_sort_stable; assumption.
 Qed.
 Print Assumptions C11_stable_sort.
+
+(* no inversion: __allocate hands the tasks to the allocation block in the
+   sorted order l; at the moment task t is handed over (prefix l1 processed),
+   every earlier task t' (not automatic, needing no facility) is sated with
+   respect to the free list t will choose from: no worker in it that has the
+   skill for t' and belongs to one of its teams can still be added to t'.
+   Whatever t receives could therefore not have gone to a higher-priority task. *)
+Theorem C11_no_priority_inversion : forall c l, NoDup l -> forall l1 t l2, l = l1 ++ t :: l2 ->
+  forall s free,
+  let acc := fold_left (alloc_task c) l1 (s, free, []) in
+  forall t', In t' l1 -> t_auto c t' = false -> t_needfac c t' = false ->
+  forall w, In w (snd (fst acc)) -> has_wskill c w t' = true -> w_targets c w t' = true ->
+  can_add c (fst (fst acc)) t' w None = false.
+Proof.
+  intros c l Hnd l1 t l2 El s free acc t' Ht' Ha Hn w Hw Hs Htg.
+  apply (greedy_prefix c l Hnd l1 t l2 El s free t' Ht' (conj Ha Hn) w Hw).
+  unfold eligible. rewrite Hs, Htg. reflexivity.
+Qed.
+Print Assumptions C11_no_priority_inversion.
 
 Example C11_example :
   stable_sort nat (fun x y => Nat.leb (x / 10) (y / 10)) [31; 12; 35; 11; 20; 19] = [12; 11; 19; 20; 31; 35].
